@@ -203,3 +203,663 @@ Proof.
     eapply PS_back; eauto.
   - inversion H; subst. eapply PS_plain; eauto.
 Qed.
+
+(* ---------------------------------------------------------------- equations *)
+Definition bin (cx : ctx) (n : nat) (b : block) (complete fb : bool) (ec : code) : option (code * nat) :=
+  match block_prologue cx n b complete fb with
+  | Some (cx', n', tl) => compile_stats cx' n' tl fb ec b
+  | None => None
+  end.
+
+Lemma compile_funA : forall b, compile_fun b = obind (bin root_ctx 0 b true true []) (fun '(c, _) => Some c).
+Proof. intros. unfold compile_fun, bin. destruct (block_prologue _ _ _ _ _) as [[[? ?] ?]|]; reflexivity. Qed.
+
+Lemma compile_doA : forall cx n b,
+  compile_stmt cx n (SDo b) =
+  obind (bin (push_ctx cx) n b true false []) (fun '(c, n') => Some (c ++ pop_code (push_ctx cx), n')).
+Proof. intros. cbn [compile_stmt]. unfold bin. destruct (block_prologue _ _ _ _ _) as [[[? ?] ?]|]; reflexivity. Qed.
+
+Lemma compile_whileA : forall cx n b,
+  compile_stmt cx n (SLoop LWhile b) =
+  let cx2 := add_label (push_ctx cx) NBreak n in
+  obind (bin (push_ctx cx2) (n + 2) b true false []) (fun '(c, n') =>
+    Some ([ILabel (n + 1); IJumpIf n true false] ++ (c ++ pop_code (push_ctx cx2))
+          ++ [IJump (n + 1); ILabel n] ++ pop_code cx2, n')).
+Proof.
+  intros. cbn [compile_stmt]. unfold bin. destruct (block_prologue _ _ _ _ _) as [[[? ?] ?]|]; [|reflexivity].
+  cbn [obind]. destruct (compile_stats _ _ _ _ _ b) as [[? ?]|]; reflexivity.
+Qed.
+
+Lemma compile_repeatA : forall cx n b,
+  compile_stmt cx n (SLoop LRepeat b) =
+  let cx2 := add_label (push_ctx cx) NBreak n in
+  obind (bin cx2 (n + 2) b false false [ICond]) (fun '(c, n') =>
+    Some ([ILabel (n + 1)] ++ c ++ [IJumpLast (n + 1) false; ILabel n] ++ pop_code cx2, n')).
+Proof.
+  intros. cbn [compile_stmt]. unfold bin. destruct (block_prologue _ _ _ _ _) as [[[? ?] ?]|]; [|reflexivity].
+  cbn [obind]. destruct (compile_stats _ _ _ _ _ b) as [[? ?]|]; reflexivity.
+Qed.
+
+Lemma compile_forinA : forall cx n v b,
+  compile_stmt cx n (SLoop (LForIn v) b) =
+  let cx3 := add_label (add_height (push_ctx cx)) NBreak (n + 1) in
+  obind (bin cx3 (n + 2) b true false []) (fun '(c, n') =>
+    Some (open_code v ++ [IClPush (forin_val v); ILabel n; IJumpIf (n + 1) false false] ++ c
+          ++ [IJump n; ILabel (n + 1)] ++ pop_code cx3, n')).
+Proof.
+  intros. cbn [compile_stmt]. unfold bin. destruct (block_prologue _ _ _ _ _) as [[[? ?] ?]|]; [|reflexivity].
+  cbn [obind]. destruct (compile_stats _ _ _ _ _ b) as [[? ?]|]; reflexivity.
+Qed.
+
+Lemma compile_ifA : forall cx n b,
+  compile_stmt cx n (SIf b) =
+  obind (bin (push_ctx cx) (n + 2) b true false []) (fun '(c, n') =>
+    Some ([IJumpIf (n + 1) true false] ++ (c ++ pop_code (push_ctx cx)) ++ [ILabel (n + 1); ILabel n], n')).
+Proof.
+  intros. cbn [compile_stmt]. unfold bin. destruct (block_prologue _ _ _ _ _) as [[[? ?] ?]|]; [|reflexivity].
+  cbn [obind]. destruct (compile_stats _ _ _ _ _ b) as [[? ?]|]; reflexivity.
+Qed.
+
+(* the local statement, unfolded *)
+Lemma compile_localA : forall cx n tl fb ec v rest,
+  compile_stats cx n tl fb ec (BCons (SLocal v) rest) =
+  obind (get_labels (push_ctx cx) n (firstn (pred tl) (shapes rest))) (fun '(cx2, n2, _) =>
+    obind (compile_stats (local_ctx cx2 v) n2 (pred tl) fb ec rest) (fun '(c, n3) =>
+      Some (local_code v ++ c ++ pop_code (local_ctx cx2 v), n3))).
+Proof. reflexivity. Qed.
+
+Lemma compile_nonlocalA : forall cx n tl fb ec t rest, is_local t = false ->
+  compile_stats cx n tl fb ec (BCons t rest) =
+  obind (compile_stmt cx n t) (fun '(c1, n1) =>
+    obind (compile_stats cx n1 (pred tl) fb ec rest) (fun '(c2, n2) => Some (c1 ++ c2, n2))).
+Proof. intros. destruct t; try reflexivity. discriminate. Qed.
+
+(* ---------------------------------------------------------------- shapes of a prefix decomposition *)
+Lemma shapes_bapp : forall a b, shapes (bapp a b) = map shape_of a ++ shapes b.
+Proof. induction a; intros; cbn; [reflexivity|rewrite IHa; reflexivity]. Qed.
+
+Lemma flab_app_nolocal : forall a sh, nolocal a -> flab (map shape_of a ++ sh) = flab (map shape_of a) ++ flab sh.
+Proof.
+  induction a as [|t a IH]; intros sh Hn; [reflexivity|].
+  assert (Ht : is_local t = false) by (apply Hn; left; reflexivity).
+  assert (Hn' : nolocal a) by (intros x Hx; apply Hn; right; exact Hx).
+  cbn [map app]. destruct t; try discriminate; cbn [shape_of flab]; rewrite IH by exact Hn'; reflexivity.
+Qed.
+
+Lemma flab_firstn_here : forall a l b' k, nolocal a -> length a < k ->
+  In l (flab (firstn k (shapes (bapp a (BCons (SLabel l) b'))))).
+Proof.
+  induction a as [|t a IH]; intros l b' k Hn Hk.
+  - destruct k; [lia|]. cbn. left. reflexivity.
+  - assert (Ht : is_local t = false) by (apply Hn; left; reflexivity).
+    assert (Hn' : nolocal a) by (intros x Hx; apply Hn; right; exact Hx).
+    destruct k; [cbn in Hk; lia|]. cbn [bapp shapes firstn].
+    cbn in Hk. specialize (IH l b' k Hn' ltac:(lia)).
+    destruct t; try discriminate; cbn [shape_of flab]; try exact IH. right. exact IH.
+Qed.
+
+(* ---------------------------------------------------------------- a visible name is not a label of a nested scope *)
+Lemma deeper_not_visible : forall a' l b' cx n tl fb ec c n', cx <> [] ->
+  compile_stats cx n tl fb ec (bapp a' (BCons (SLabel l) b')) = Some (c, n') ->
+  ~ nolocal a' -> length a' < tl -> get_label cx (NUser l) <> None -> False.
+Proof.
+  induction a' as [|t a IH]; intros l b' cx n tl fb ec c n' Hne H Hnl Hlen Hv.
+  - apply Hnl. intros x [].
+  - cbn [bapp] in H. cbn [length] in Hlen.
+    destruct (is_local t) eqn:Et.
+    + destruct t; try discriminate. rewrite compile_localA in H.
+      destruct (get_labels (push_ctx cx) n (firstn (pred tl) (shapes (bapp a (BCons (SLabel l) b'))))) as [[[cx2 n2] bo]|] eqn:E;
+        [|discriminate]. cbn [obind] in H.
+      destruct (compile_stats (local_ctx cx2 v) n2 (pred tl) fb ec _) as [[c0 n0]|] eqn:E2; [|discriminate].
+      assert (Hv1 : get_label (push_ctx cx) (NUser l) <> None) by exact Hv.
+      assert (DEC : {nolocal a} + {~ nolocal a}).
+      { clear. induction a as [|x a IHa]; [left; intros y []|].
+        destruct (is_local x) eqn:Ex.
+        - right. intro Hq. specialize (Hq x (or_introl eq_refl)). congruence.
+        - destruct IHa as [Hy|Hn]; [left|right].
+          + intros y [<-|Hy']; [exact Ex|apply Hy; exact Hy'].
+          + intro Hq. apply Hn. intros y Hy. apply Hq. right. exact Hy. }
+      destruct DEC as [Hna|Hna].
+      * (* l would be declared by this getLabels although visible *)
+        eapply (glA_vis l); [apply push_ctx_ne|exact Hv1|exact E|].
+        apply flab_firstn_here; [exact Hna|lia].
+      * destruct (get_label (push_ctx cx) (NUser l)) as [x|] eqn:Eg; [|contradiction].
+        pose proof (glA_stable _ _ _ _ _ _ _ _ (push_ctx_ne cx) E Eg) as Hs.
+        destruct (glA_basic _ _ _ _ _ _ (push_ctx_ne cx) E) as (_ & _ & _ & Hne2).
+        eapply (IH l b' (local_ctx cx2 v) n2 (pred tl)); [|exact E2|exact Hna|lia|].
+        -- destruct v, cx2; try contradiction; discriminate.
+        -- destruct v; cbn [local_ctx]; try (rewrite Hs; discriminate);
+             destruct cx2 as [|s r]; try contradiction; cbn in *; rewrite Hs; discriminate.
+    + rewrite (compile_nonlocalA _ _ _ _ _ _ _ Et) in H.
+      destruct (compile_stmt cx n t) as [[c1 n1]|]; [|discriminate]. cbn [obind] in H.
+      destruct (compile_stats cx n1 (pred tl) fb ec _) as [[c2 n2]|] eqn:E2; [|discriminate].
+      eapply (IH l b' cx n1 (pred tl)); [exact Hne|exact E2| |lia|exact Hv].
+      intro Hq. apply Hnl. intros x [<-|Hx]; [exact Et|apply Hq; exact Hx].
+Qed.
+
+Lemma nolocal_dec : forall a, {nolocal a} + {~ nolocal a}.
+Proof.
+  induction a as [|x a IHa]; [left; intros y []|].
+  destruct (is_local x) eqn:Ex.
+  - right. intro Hq. specialize (Hq x (or_introl eq_refl)). congruence.
+  - destruct IHa as [Hy|Hn]; [left|right].
+    + intros y [<-|Hy']; [exact Ex|apply Hy; exact Hy'].
+    + intro Hq. apply Hn. intros y Hy. apply Hq. right. exact Hy.
+Qed.
+
+(* ---------------------------------------------------------------- the back-label zone *)
+Lemma lead_rev_split : forall sh, sh = firstn (length sh - length (lead (rev sh))) sh ++ rev (lead (rev sh)).
+Proof.
+  induction sh as [|x s IH] using rev_ind; [reflexivity|].
+  rewrite rev_app_distr. cbn [rev app]. rewrite app_length. cbn [length].
+  destruct x; cbn [lead]; try (cbn [length rev app]; rewrite Nat.sub_0_r, app_nil_r;
+                                rewrite <- (app_length s [_]) || idtac).
+  - cbn [length rev]. replace (length s + 1 - S (length (lead (rev s)))) with (length s - length (lead (rev s))) by lia.
+    rewrite firstn_app. replace (length s - length (lead (rev s)) - length s) with 0 by lia.
+    cbn [firstn]. rewrite app_nil_r. rewrite app_assoc. rewrite <- IH. reflexivity.
+  - replace (length s + 1) with (length (s ++ [ShLocal])) by (rewrite app_length; reflexivity).
+    rewrite firstn_all. reflexivity.
+  - replace (length s + 1) with (length (s ++ [ShOther])) by (rewrite app_length; reflexivity).
+    rewrite firstn_all. reflexivity.
+Qed.
+
+Lemma app_split_ge : forall (A : Type) (P A0 B R : list A) (y : A),
+  A0 ++ y :: B = P ++ R -> length P <= length A0 -> exists R1, R = R1 ++ y :: B.
+Proof.
+  intros A P. induction P as [|p P IH]; intros A0 B R y H Hl.
+  - cbn in H. exists A0. symmetry. exact H.
+  - destruct A0 as [|a A0]; [cbn in Hl; lia|]. cbn in H. inversion H; subst.
+    eapply IH; [eassumption|cbn in Hl; lia].
+Qed.
+
+Fixpoint lblnil (b : block) : Prop :=
+  match b with BNil => True | BCons (SLabel _) r => lblnil r | _ => False end.
+
+Lemma has_ret_bapp : forall a b, has_ret (bapp a b) = has_ret b.
+Proof. induction a; intros; cbn; [reflexivity|apply IHa]. Qed.
+
+Lemma lblnil_of_shapes : forall b, (forall x, In x (shapes b) -> exists l, x = ShLabel l) -> has_ret b = false -> lblnil b.
+Proof.
+  induction b as [|r|t b IH] using block_ind; intros H Hr; [exact I|discriminate|].
+  cbn [shapes] in H. destruct (H (shape_of t) (or_introl eq_refl)) as [l El].
+  destruct t; try discriminate. cbn. apply IH; [intros x Hx; apply H; right; exact Hx|exact Hr].
+Qed.
+
+(* VZ tl b backs: the statements of b from position tl on are labels, all in backs, and b then ends *)
+Definition VZ (tl : nat) (b : block) (backs : list nat) : Prop :=
+  forall a' t b', b = bapp a' (BCons t b') -> tl <= length a' -> (exists l, t = SLabel l /\ In l backs) /\ lblnil b'.
+
+Lemma VZ_full : forall b backs, VZ (length (shapes b)) b backs.
+Proof.
+  intros b backs a' t b' E Hl. exfalso. rewrite E in Hl. rewrite shapes_bapp, app_length, map_length in Hl. cbn in Hl. lia.
+Qed.
+
+Lemma flab_all_labels : forall sh l, (forall x, In x sh -> exists l0, x = ShLabel l0) -> In (ShLabel l) sh -> In l (flab sh).
+Proof.
+  induction sh as [|y r IH]; intros l H Hin; [destruct Hin|].
+  destruct (H y (or_introl eq_refl)) as [l0 ->]. cbn [flab].
+  destruct Hin as [Hq|Hin]; [inversion Hq; left; reflexivity|right; apply IH; [intros x Hx; apply H; right; exact Hx|exact Hin]].
+Qed.
+
+Lemma VZ_back : forall b, has_ret b = false ->
+  VZ (length (shapes b) - length (lead (rev (shapes b)))) b (flab (lead (rev (shapes b)))).
+Proof.
+  intros b Hr a' t b' E Hl.
+  pose proof (lead_rev_split (shapes b)) as S.
+  assert (Es : shapes b = map shape_of a' ++ shape_of t :: shapes b') by (rewrite E, shapes_bapp; reflexivity).
+  rewrite Es in S at 1.
+  assert (Hlen : length (firstn (length (shapes b) - length (lead (rev (shapes b)))) (shapes b)) <= length (map shape_of a')).
+  { rewrite firstn_length, map_length. lia. }
+  destruct (app_split_ge _ _ _ _ _ _ S Hlen) as [R1 HR].
+  assert (ALL : forall x, In x (rev (lead (rev (shapes b)))) -> exists l, x = ShLabel l).
+  { intros x Hx. apply in_rev in Hx. eapply lead_all_labels. exact Hx. }
+  assert (Ht : In (shape_of t) (rev (lead (rev (shapes b))))) by (rewrite HR; apply in_or_app; right; left; reflexivity).
+  destruct (ALL _ Ht) as [l El]. split.
+  - exists l. split; [destruct t; try discriminate; inversion El; reflexivity|].
+    apply flab_all_labels; [intros x Hx; eapply lead_all_labels; exact Hx|].
+    apply in_rev. rewrite <- El. exact Ht.
+  - apply lblnil_of_shapes.
+    + intros x Hx. apply ALL. rewrite HR. apply in_or_app. right. right. exact Hx.
+    + rewrite E, has_ret_bapp in Hr. exact Hr.
+Qed.
+
+Lemma VZ_tail_nonlocal : forall tl t rest backs, VZ tl (BCons t rest) backs -> VZ (pred tl) rest backs.
+Proof.
+  intros tl t rest backs H a' t' b' E Hl. apply (H (t :: a') t' b'); [cbn; rewrite E; reflexivity|cbn; lia].
+Qed.
+
+Lemma VZ_suffix : forall a tl W cur backs, W = bapp a cur -> VZ tl W backs -> VZ (tl - length a) cur backs.
+Proof.
+  intros a tl W cur backs E H a' t b' E' Hl. apply (H (a ++ a') t b').
+  - rewrite E, E', bapp_app. reflexivity.
+  - rewrite app_length. lia.
+Qed.
+
+(* ---------------------------------------------------------------- label numbers *)
+Fixpoint stmts (b : block) : list stmt := match b with BCons t r => t :: stmts r | _ => [] end.
+
+Lemma stmts_split : forall b t, In t (stmts b) -> exists a' b', b = bapp a' (BCons t b').
+Proof.
+  induction b as [|r|t0 b IH] using block_ind; intros t H; try destruct H.
+  - subst. exists [], b. reflexivity.
+  - destruct (IH t H) as (a' & b' & ->). exists (t0 :: a'), b'. reflexivity.
+Qed.
+
+Definition labs_okA (cx : ctx) (b : block) (c : code) (n n' : nat) : Prop :=
+  n <= n' /\ forall x, In (ILabel x) c ->
+     n <= x < n' \/ exists l, In (SLabel l) (stmts b) /\ get_label cx (NUser l) = Some x.
+
+Lemma local_ctx_get_label : forall cx2 v name, get_label (local_ctx cx2 v) name = get_label cx2 name.
+Proof. intros [|s r] v name; destruct v; reflexivity. Qed.
+
+Lemma local_ctx_ne2 : forall cx2 v, cx2 <> [] -> local_ctx cx2 v <> [].
+Proof. intros [|s r] v H; [contradiction|]. destruct v; discriminate. Qed.
+
+Lemma local_ctx_top_height : forall cx2 v, cx2 <> [] ->
+  top_height (local_ctx cx2 v) = match v with VPlain => top_height cx2 | _ => S (top_height cx2) end.
+Proof. intros [|s r] v H; [contradiction|]. destruct v; reflexivity. Qed.
+
+Lemma local_ctx_tl : forall cx2 v, tl (local_ctx cx2 v) = tl cx2.
+Proof. intros [|s r] v; destruct v; reflexivity. Qed.
+
+Lemma flab_here : forall a l b', nolocal a -> In l (flab (shapes (bapp a (BCons (SLabel l) b')))).
+Proof.
+  intros a l b' Hn.
+  pose proof (flab_firstn_here a l b' (length (shapes (bapp a (BCons (SLabel l) b')))) Hn) as H.
+  rewrite firstn_all in H. apply H. rewrite shapes_bapp, app_length, map_length. cbn. lia.
+Qed.
+
+(* a label statement of a block that is visible after the prologue was declared by the prologue *)
+Lemma prologue_labels : forall b cx n complete fb cx2 n2 tl fb' ec c0 n0 l x,
+  cx <> [] -> prologue_spec cx n b complete fb cx2 n2 tl ->
+  compile_stats cx2 n2 tl fb' ec b = Some (c0, n0) ->
+  In (SLabel l) (stmts b) -> get_label cx2 (NUser l) = Some x ->
+  cx2 <> [] /\ n <= n2 /\ n <= x < n2.
+Proof.
+  intros b cx n complete fb cx2 n2 tl fb' ec c0 n0 l x Hne Ep H Hin Hg.
+  destruct (stmts_split b _ Hin) as (a' & b' & Eb).
+  assert (Hlen : length a' < length (shapes b)).
+  { rewrite Eb, shapes_bapp, app_length, map_length. cbn. lia. }
+  destruct Ep as [bo E ->|cx1 n1 bo E1 E2 -> _ _ Hr].
+  - destruct (glA_basic _ _ _ _ _ _ Hne E) as (Hle & _ & _ & Hne2).
+    split; [exact Hne2|]. split; [exact Hle|].
+    destruct (nolocal_dec a') as [Hn|Hn].
+    + assert (Hf : In l (flab (shapes b))) by (rewrite Eb; apply flab_here; exact Hn).
+      destruct (glA_new _ _ _ _ _ _ l Hne E Hf) as (x' & Hx' & Hr).
+      rewrite (get_label_top _ _ _ Hne2 Hx') in Hg. inversion Hg; subst. exact Hr.
+    + exfalso. revert H Hlen. rewrite Eb. intros H Hlen.
+      eapply deeper_not_visible; [exact Hne2|exact H|exact Hn|exact Hlen|]. rewrite Hg. discriminate.
+  - destruct (glA_basic _ _ _ _ _ _ Hne E1) as (Hle1 & _ & _ & Hne1).
+    destruct (glA_basic _ _ _ _ _ _ Hne1 E2) as (Hle2 & _ & _ & Hne2).
+    split; [exact Hne2|]. split; [lia|].
+    destruct (Nat.lt_ge_cases (length a') (length (shapes b) - length (lead (rev (shapes b))))) as [Hlt|Hge].
+    + destruct (nolocal_dec a') as [Hn|Hn].
+      * assert (Hf : In l (flab (shapes b))) by (rewrite Eb; apply flab_here; exact Hn).
+        destruct (glA_new _ _ _ _ _ _ l Hne E1 Hf) as (x' & Hx' & Hr').
+        pose proof (glA_stable _ _ _ _ _ _ _ _ Hne1 E2 (get_label_top _ _ _ Hne1 Hx')) as Hs.
+        rewrite Hs in Hg. inversion Hg; subst. lia.
+      * exfalso. revert H Hlt. rewrite Eb. intros H Hlt.
+        eapply deeper_not_visible; [exact Hne2|exact H|exact Hn|exact Hlt|]. rewrite Hg. discriminate.
+    + destruct (VZ_back b Hr a' (SLabel l) b' Eb Hge) as ((l0 & El & Hb) & _). inversion El; subst l0.
+      destruct (glA_new _ _ _ _ _ _ l Hne1 E2 Hb) as (x' & Hx' & Hr').
+      rewrite (get_label_top _ _ _ Hne2 Hx') in Hg. inversion Hg; subst. lia.
+Qed.
+
+(* a block compiled through its prologue: every label of its code is allocated inside *)
+Lemma bin_rng : forall b cx n complete fb ec c0 n0,
+  (forall cx n tl fb ec c n', cx <> [] -> (forall l, ~ In (ILabel l) ec) ->
+     compile_stats cx n tl fb ec b = Some (c, n') -> labs_okA cx b c n n') ->
+  cx <> [] -> (forall l, ~ In (ILabel l) ec) ->
+  bin cx n b complete fb ec = Some (c0, n0) -> rng c0 n n0.
+Proof.
+  intros b cx n complete fb ec c0 n0 IH Hne Hec H. unfold bin in H.
+  destruct (block_prologue cx n b complete fb) as [[[cx2 n2] tl]|] eqn:Ep; [|discriminate].
+  apply prologue_inv in Ep.
+  assert (Hne2 : cx2 <> [] /\ n <= n2).
+  { destruct Ep as [bo E ->|cx1 n1 bo E1 E2 -> _ _ Hr].
+    - destruct (glA_basic _ _ _ _ _ _ Hne E) as (Hle & _ & _ & Hn2). auto.
+    - destruct (glA_basic _ _ _ _ _ _ Hne E1) as (Hle1 & _ & _ & Hne1).
+      destruct (glA_basic _ _ _ _ _ _ Hne1 E2) as (Hle2 & _ & _ & Hn2). split; [exact Hn2|lia]. }
+  destruct Hne2 as [Hne2 Hle].
+  destruct (IH _ _ _ _ _ _ _ Hne2 Hec H) as (Hle2 & Hl).
+  split; [lia|]. split; intros x Hx; destruct (Hl x Hx) as [Hr|(l & Hin & Hg)]; try lia;
+    destruct (prologue_labels _ _ _ _ _ _ _ _ _ _ _ _ _ _ Hne Ep H Hin Hg) as (_ & _ & Hr); lia.
+Qed.
+
+Lemma labs_okA_rng : forall cx b c n n', rng c n n' -> labs_okA cx b c n n'.
+Proof. intros cx b c n n' (H1 & H2 & H3). split; [exact H1|]. intros x Hx. left. split; [apply H2|apply H3]; exact Hx. Qed.
+
+Lemma compile_labsA :
+  (forall t, forall cx n c n', cx <> [] -> (forall l, t <> SLabel l) ->
+     compile_stmt cx n t = Some (c, n') -> rng c n n') /\
+  (forall b, forall cx n tl fb ec c n', cx <> [] -> (forall l, ~ In (ILabel l) ec) ->
+     compile_stats cx n tl fb ec b = Some (c, n') -> labs_okA cx b c n n') /\
+  (forall r : ret, True).
+Proof.
+  assert (NOEC : forall l, ~ In (ILabel l) (@nil instr)) by (intros l []).
+  assert (NOCOND : forall l, ~ In (ILabel l) [ICond]) by (intros l [H|[]]; discriminate).
+  apply skel_mutind; try (intros; exact I).
+  - intros v cx n c n' _ _ H. discriminate.
+  - (* SDo *) intros b IH cx n c n' Hne _ H. rewrite compile_doA in H.
+    destruct (bin (push_ctx cx) n b true false []) as [[c0 n0]|] eqn:E; [|discriminate]. cbn [obind] in H.
+    rewrite pop_code_push, app_nil_r in H. inversion H; subst.
+    exact (bin_rng b _ _ _ _ _ _ _ IH (push_ctx_ne cx) NOEC E).
+  - (* SLoop *) intros k b IH cx n c n' Hne _ H. destruct k as [| |v].
+    + rewrite compile_whileA in H. cbv zeta in H.
+      destruct (bin _ (n + 2) b true false []) as [[c0 n0]|] eqn:E; [|discriminate]. cbn [obind] in H.
+      rewrite pop_code_push, app_nil_r in H. inversion H; subst.
+      destruct (bin_rng b _ _ _ _ _ _ _ IH (push_ctx_ne _) NOEC E) as (H1 & H2 & H3).
+      split; [lia|]. split.
+      * intros l Hl. cbn in Hl. destruct Hl as [Hl|[Hl|Hl]]; [inversion Hl; lia|discriminate|].
+        apply in_app_or in Hl as [Hl|Hl]; [specialize (H2 l Hl); lia|].
+        cbn in Hl. destruct Hl as [Hl|[Hl|Hl]]; [discriminate|inversion Hl; lia|].
+        exfalso. first [eapply pop_code_nolab; exact Hl | eapply emit_truncate_nolab; exact Hl].
+      * intros l Hl. cbn in Hl. destruct Hl as [Hl|[Hl|Hl]]; [inversion Hl; lia|discriminate|].
+        apply in_app_or in Hl as [Hl|Hl]; [apply (H3 l Hl)|].
+        cbn in Hl. destruct Hl as [Hl|[Hl|Hl]]; [discriminate|inversion Hl; lia|].
+        exfalso. first [eapply pop_code_nolab; exact Hl | eapply emit_truncate_nolab; exact Hl].
+    + rewrite compile_repeatA in H. cbv zeta in H.
+      destruct (bin _ (n + 2) b false false [ICond]) as [[c0 n0]|] eqn:E; [|discriminate]. cbn [obind] in H.
+      inversion H; subst.
+      destruct (bin_rng b _ _ _ _ _ _ _ IH (add_label_ne _ _ _ (push_ctx_ne _)) NOCOND E) as (H1 & H2 & H3).
+      split; [lia|]. split.
+      * intros l Hl. cbn in Hl. destruct Hl as [Hl|Hl]; [inversion Hl; lia|].
+        apply in_app_or in Hl as [Hl|Hl]; [specialize (H2 l Hl); lia|].
+        cbn in Hl. destruct Hl as [Hl|[Hl|Hl]]; [discriminate|inversion Hl; lia|].
+        exfalso. first [eapply pop_code_nolab; exact Hl | eapply emit_truncate_nolab; exact Hl].
+      * intros l Hl. cbn in Hl. destruct Hl as [Hl|Hl]; [inversion Hl; lia|].
+        apply in_app_or in Hl as [Hl|Hl]; [apply (H3 l Hl)|].
+        cbn in Hl. destruct Hl as [Hl|[Hl|Hl]]; [discriminate|inversion Hl; lia|].
+        exfalso. first [eapply pop_code_nolab; exact Hl | eapply emit_truncate_nolab; exact Hl].
+    + rewrite compile_forinA in H. cbv zeta in H.
+      destruct (bin _ (n + 2) b true false []) as [[c0 n0]|] eqn:E; [|discriminate]. cbn [obind] in H.
+      inversion H; subst.
+      destruct (bin_rng b _ _ _ _ _ _ _ IH (add_label_ne (add_height (push_ctx cx)) NBreak (n + 1) ltac:(discriminate)) NOEC E) as (H1 & H2 & H3).
+      split; [lia|]. split.
+      * intros l Hl. apply in_app_or in Hl as [Hl|Hl].
+        { exfalso. destruct v; cbn in Hl; repeat (destruct Hl as [Hl|Hl]; [discriminate|]); destruct Hl. }
+        cbn in Hl. destruct Hl as [Hl|[Hl|[Hl|Hl]]]; [discriminate|inversion Hl; lia|discriminate|].
+        apply in_app_or in Hl as [Hl|Hl]; [specialize (H2 l Hl); lia|].
+        cbn in Hl. destruct Hl as [Hl|[Hl|Hl]]; [discriminate|inversion Hl; lia|].
+        exfalso. first [eapply pop_code_nolab; exact Hl | eapply emit_truncate_nolab; exact Hl].
+      * intros l Hl. apply in_app_or in Hl as [Hl|Hl].
+        { exfalso. destruct v; cbn in Hl; repeat (destruct Hl as [Hl|Hl]; [discriminate|]); destruct Hl. }
+        cbn in Hl. destruct Hl as [Hl|[Hl|[Hl|Hl]]]; [discriminate|inversion Hl; lia|discriminate|].
+        apply in_app_or in Hl as [Hl|Hl]; [apply (H3 l Hl)|].
+        cbn in Hl. destruct Hl as [Hl|[Hl|Hl]]; [discriminate|inversion Hl; lia|].
+        exfalso. first [eapply pop_code_nolab; exact Hl | eapply emit_truncate_nolab; exact Hl].
+  - (* SIf *) intros b IH cx n c n' Hne _ H. rewrite compile_ifA in H.
+    destruct (bin (push_ctx cx) (n + 2) b true false []) as [[c0 n0]|] eqn:E; [|discriminate]. cbn [obind] in H.
+    rewrite pop_code_push, app_nil_r in H. inversion H; subst.
+    destruct (bin_rng b _ _ _ _ _ _ _ IH (push_ctx_ne _) NOEC E) as (H1 & H2 & H3).
+    split; [lia|]. split.
+    + intros l Hl. cbn in Hl. destruct Hl as [Hl|Hl]; [discriminate|].
+      apply in_app_or in Hl as [Hl|Hl]; [specialize (H2 l Hl); lia|].
+      cbn in Hl. destruct Hl as [Hl|[Hl|Hl]]; [inversion Hl; lia|inversion Hl; lia|destruct Hl].
+    + intros l Hl. cbn in Hl. destruct Hl as [Hl|Hl]; [discriminate|].
+      apply in_app_or in Hl as [Hl|Hl]; [apply (H3 l Hl)|].
+      cbn in Hl. destruct Hl as [Hl|[Hl|Hl]]; [inversion Hl; lia|inversion Hl; lia|destruct Hl].
+  - (* SBreak *) intros cx n c n' _ _ H. cbn [compile_stmt] in H. unfold emit_jump in H.
+    rewrite emit_jump_from_target in H. destruct (jump_target cx NBreak) as [[l h]|]; [|discriminate].
+    cbn in H. inversion H; subst. apply rng_nolab. intros l0 Hl. apply in_app_or in Hl as [Hl|Hl].
+    + eapply emit_truncate_nolab. exact Hl.
+    + destruct Hl as [Hl|[]]. discriminate.
+  - (* SGoto *) intros g cx n c n' _ _ H. cbn [compile_stmt] in H. unfold emit_jump in H.
+    rewrite emit_jump_from_target in H. destruct (jump_target cx (NUser g)) as [[l h]|]; [|discriminate].
+    cbn in H. inversion H; subst. apply rng_nolab. intros l0 Hl. apply in_app_or in Hl as [Hl|Hl].
+    + eapply emit_truncate_nolab. exact Hl.
+    + destruct Hl as [Hl|[]]. discriminate.
+  - (* SLabel *) intros l cx n c n' _ Hn H. exfalso. eapply Hn. reflexivity.
+  - intros m cx n c n' _ _ H. inversion H; subst. apply rng_nolab. nolab.
+  - intros b IH cx n c n' _ _ H. rewrite compile_call_eq in H.
+    destruct (compile_fun b); [|discriminate]. inversion H; subst. apply rng_nolab. nolab.
+  - intros b IH cx n c n' _ _ H. rewrite compile_pcall_eq in H.
+    destruct (compile_fun b); [|discriminate]. inversion H; subst. apply rng_nolab. nolab.
+  - intros b IH k cx n c n' _ _ H. rewrite compile_coro_eq in H.
+    destruct (compile_fun b); [|discriminate]. inversion H; subst. apply rng_nolab. nolab.
+  - intros cx n c n' _ _ H. inversion H; subst. apply rng_nolab. nolab.
+  - intros e cx n c n' _ _ H. inversion H; subst. apply rng_nolab. nolab.
+  - (* BNil *) intros cx n tl fb ec c n' _ Hec H. cbn in H. inversion H; subst. apply labs_okA_rng. apply rng_nolab.
+    destruct fb; [nolab|exact Hec].
+  - (* BRet *) intros r _ cx n tl fb ec c n' _ Hec H. apply labs_okA_rng. destruct r as [|body].
+    + inversion H; subst. apply rng_nolab. nolab.
+    + rewrite compile_retcall_eq in H. destruct (compile_fun body); [|discriminate]. cbn in H.
+      destruct (top_height cx =? 0); inversion H; subst; apply rng_nolab; nolab.
+  - (* BCons *) intros t IHt rest IHr cx n tl fb ec c n' Hne Hec H.
+    destruct (is_local t) eqn:Eloc.
+    + destruct t; try discriminate. rewrite compile_localA in H.
+      destruct (get_labels (push_ctx cx) n (firstn (pred tl) (shapes rest))) as [[[cx2 n2] bo]|] eqn:E; [|discriminate].
+      cbn [obind] in H.
+      destruct (compile_stats (local_ctx cx2 v) n2 (pred tl) fb ec rest) as [[c0 n0]|] eqn:E2; [|discriminate].
+      cbn [obind] in H. inversion H; subst. clear H.
+      destruct (glA_basic _ _ _ _ _ _ (push_ctx_ne cx) E) as (Hle & Htl & Hth & Hne2).
+      destruct (IHr _ _ _ _ _ _ _ (local_ctx_ne2 cx2 v Hne2) Hec E2) as (Hle2 & Hl).
+      split; [lia|]. intros x Hx.
+      apply in_app_or in Hx as [Hx|Hx]; [exfalso; eapply local_code_nolab; exact Hx|].
+      apply in_app_or in Hx as [Hx|Hx]; [|exfalso; eapply pop_code_nolab; exact Hx].
+      destruct (Hl x Hx) as [Hr|(l & Hin & Hg)]; [left; lia|].
+      rewrite local_ctx_get_label in Hg.
+      (* l is resolved either in the labels just declared (fresh numbers) or as before *)
+      destruct cx2 as [|s2 r2]; [contradiction|]. cbn in Htl. subst r2. cbn [get_label] in Hg.
+      destruct (scope_label (NUser l) (labels s2)) as [y|] eqn:Es.
+      * inversion Hg; subst y.
+        destruct (in_dec Nat.eq_dec l (flab (firstn (pred tl) (shapes rest)))) as [Hf|Hf].
+        -- destruct (glA_new _ _ _ _ _ _ l (push_ctx_ne cx) E Hf) as (x' & Hx' & Hr). cbn in Hx'. rewrite Es in Hx'.
+           inversion Hx'; subst. left. lia.
+        -- pose proof (glA_old _ _ _ _ _ _ (NUser l) (push_ctx_ne cx) E ltac:(intros l0 Hq; inversion Hq; subst; exact Hf)) as Ho.
+           cbn in Ho. rewrite Es in Ho. discriminate.
+      * right. exists l. split; [right; exact Hin|exact Hg].
+    + rewrite (compile_nonlocalA _ _ _ _ _ _ _ Eloc) in H.
+      destruct (compile_stmt cx n t) as [[c1 n1]|] eqn:E1; [|discriminate]. cbn [obind] in H.
+      destruct (compile_stats cx n1 (pred tl) fb ec rest) as [[c2 n2]|] eqn:E2; [|discriminate].
+      cbn [obind] in H. inversion H; subst. clear H.
+      destruct (IHr _ _ _ _ _ _ _ Hne Hec E2) as (Hle2 & Hl2).
+      destruct t; try discriminate Eloc;
+        try (destruct (IHt cx n c1 n1 Hne ltac:(intros; discriminate) E1) as (Hle1 & Hge1 & Hlt1);
+             split; [lia|]; intros x Hx; apply in_app_or in Hx as [Hx|Hx];
+             [left; split; [apply Hge1|specialize (Hlt1 _ Hx); lia]; exact Hx|];
+             destruct (Hl2 x Hx) as [Hr|(l0 & Hin & Hg)]; [left; lia|right; exists l0; split; [right; exact Hin|exact Hg]]).
+      match goal with E : compile_stmt cx n (SLabel ?lb) = Some _ |- _ => rename lb into ll end.
+      cbn [compile_stmt] in E1. destruct (get_label cx (NUser ll)) as [x0|] eqn:Eg; [|discriminate].
+      cbn [obind] in E1. inversion E1; subst. split; [lia|]. intros x Hx.
+      destruct Hx as [Hx|Hx].
+      * inversion Hx; subst. right. exists ll. split; [left; reflexivity|exact Eg].
+      * destruct (Hl2 x Hx) as [Hr|(l2 & Hin & Hg)]; [left; exact Hr|right; exists l2; split; [right; exact Hin|exact Hg]].
+Qed.
+
+Lemma seq_labsA : forall a cx n ca nb, cx <> [] -> nolocal a ->
+  compile_seq cx n a = Some (ca, nb) ->
+  n <= nb /\ forall x, In (ILabel x) ca ->
+     n <= x < nb \/ exists l2, In (SLabel l2) a /\ get_label cx (NUser l2) = Some x.
+Proof.
+  induction a as [|t a IH]; intros cx n ca nb Hne Hn H.
+  - cbn in H. inversion H; subst. split; [lia|intros x []].
+  - cbn [compile_seq] in H.
+    destruct (compile_stmt cx n t) as [[c1 n1]|] eqn:E1; [|discriminate]. cbn [obind] in H.
+    destruct (compile_seq cx n1 a) as [[c2 n2]|] eqn:E2; [|discriminate]. cbn [obind] in H. inversion H; subst. clear H.
+    destruct (IH _ _ _ _ Hne (fun x Hx => Hn x (or_intror Hx)) E2) as (Hle2 & Hl2).
+    destruct t; try (exfalso; specialize (Hn _ (or_introl eq_refl)); discriminate);
+      try (match type of E1 with compile_stmt _ _ ?tt = _ =>
+             destruct (proj1 compile_labsA tt cx n c1 n1 Hne ltac:(intros; discriminate) E1) as (Hle1 & Hge1 & Hlt1) end;
+           split; [lia|]; intros x Hx; apply in_app_or in Hx as [Hx|Hx];
+           [left; split; [apply Hge1; exact Hx|specialize (Hlt1 _ Hx); lia]|];
+           destruct (Hl2 x Hx) as [Hr|(l2 & Hin & Hg)]; [left; lia|right; exists l2; split; [right; exact Hin|exact Hg]]).
+    cbn [compile_stmt] in E1. destruct (get_label cx (NUser l)) as [x0|] eqn:Eg; [|discriminate].
+    cbn [obind] in E1. inversion E1; subst. split; [lia|]. intros x [Hx|Hx].
+    + inversion Hx; subst. right. exists l. split; [left; reflexivity|exact Eg].
+    + destruct (Hl2 x Hx) as [Hr|(l2 & Hin & Hg)]; [left; exact Hr|right; exists l2; split; [right; exact Hin|exact Hg]].
+Qed.
+
+(* ---------------------------------------------------------------- the code after a back label *)
+Definition noop (H : nat) (z : code) : Prop :=
+  forall i, In i z -> (exists l, i = ILabel l) \/ (exists t, i = IClTrunc t /\ H <= t).
+
+Lemma noop_app : forall H a b, noop H a -> noop H b -> noop H (a ++ b).
+Proof. intros H a b Ha Hb i Hi. apply in_app_or in Hi as [Hi|Hi]; auto. Qed.
+Lemma noop_mono : forall H H' z, noop H z -> H' <= H -> noop H' z.
+Proof. intros H H' z Hz Hle i Hi. destruct (Hz i Hi) as [A|(t & -> & B)]; [left; exact A|right; exists t; split; [reflexivity|lia]]. Qed.
+
+Lemma lblnil_code : forall b cx n tl c n', lblnil b -> compile_stats cx n tl false [] b = Some (c, n') ->
+  forall i, In i c -> exists l, i = ILabel l.
+Proof.
+  induction b as [|r|t b IH] using block_ind; intros cx n tl c n' Hl H i Hi.
+  - cbn in H. inversion H; subst. destruct Hi.
+  - destruct Hl.
+  - cbn [lblnil] in Hl. destruct t; try contradiction.
+    rewrite (compile_nonlocalA cx n tl false [] (SLabel l) b eq_refl) in H. cbn [compile_stmt] in H.
+    destruct (get_label cx (NUser l)) as [x|]; [|discriminate]. cbn [obind] in H.
+    destruct (compile_stats cx n (pred tl) false [] b) as [[c2 n2]|] eqn:E; [|discriminate]. cbn [obind] in H.
+    inversion H; subst. destruct Hi as [<-|Hi]; [eauto|]. eapply IH; eassumption.
+Qed.
+
+Lemma ctx_inj_local_ctx : forall cx2 v, ctx_inj cx2 -> ctx_inj (local_ctx cx2 v).
+Proof. intros cx2 v H a b x Ha Hb. rewrite local_ctx_get_label in Ha, Hb. eapply H; eassumption. Qed.
+
+Lemma ctx_lt_local_ctx : forall cx2 v n, ctx_lt cx2 n -> ctx_lt (local_ctx cx2 v) n.
+Proof. intros cx2 v n H. destruct v; cbn [local_ctx]; try apply ctx_lt_add_height; exact H. Qed.
+
+Lemma pop_code_local_ctx : forall cx cx2 v, cx2 <> [] -> tl cx2 = cx -> top_height cx2 = top_height cx ->
+  noop (top_height cx) (pop_code (local_ctx cx2 v)).
+Proof.
+  intros cx [|s2 r2] v Hne Htl Hth; [contradiction|]. cbn in Htl, Hth. subst r2.
+  intros i Hi. destruct v; cbn in Hi; unfold emit_truncate in Hi;
+    match type of Hi with In _ (if ?c then _ else _) => destruct c end;
+    try destruct Hi as [<-|[]]; try destruct Hi; right; eexists; split; try reflexivity; lia.
+Qed.
+
+Lemma void_code : forall a' l b' cx n tl c n' L, cx <> [] ->
+  compile_stats cx n tl false [] (bapp a' (BCons (SLabel l) b')) = Some (c, n') ->
+  ~ In (SLabel l) a' -> tl <= length a' -> lblnil b' ->
+  get_label cx (NUser l) = Some L -> ctx_inj cx -> ctx_lt cx n ->
+  exists c1 z, c = c1 ++ ILabel L :: z /\ ~ In (ILabel L) c1 /\ noop (top_height cx) z.
+Proof.
+  induction a' as [|t a IH]; intros l b' cx n tl c n' L Hne H Hnot Htl Hlb Hg Hinj Hlt.
+  - cbn [bapp] in H. rewrite (compile_nonlocalA cx n tl false [] (SLabel l) b' eq_refl) in H. cbn [compile_stmt] in H.
+    rewrite Hg in H. cbn [obind] in H.
+    destruct (compile_stats cx n (pred tl) false [] b') as [[c2 n2]|] eqn:E; [|discriminate]. cbn [obind app] in H.
+    inversion H; subst. exists [], c2. split; [reflexivity|]. split; [intros []|].
+    intros i Hi. left. eapply lblnil_code; eassumption.
+  - cbn [bapp] in H. cbn [length] in Htl.
+    assert (Hnot' : ~ In (SLabel l) a) by (intro Hq; apply Hnot; right; exact Hq).
+    destruct (is_local t) eqn:Et.
+    + destruct t; try discriminate. rewrite compile_localA in H.
+      destruct (get_labels (push_ctx cx) n (firstn (pred tl) (shapes (bapp a (BCons (SLabel l) b'))))) as [[[cx2 n2] bo]|] eqn:E;
+        [|discriminate]. cbn [obind] in H.
+      destruct (compile_stats (local_ctx cx2 v) n2 (pred tl) false [] _) as [[c0 n0]|] eqn:E2; [|discriminate].
+      cbn [obind] in H. inversion H; subst. clear H.
+      destruct (glA_basic _ _ _ _ _ _ (push_ctx_ne cx) E) as (Hle & Htl2 & Hth & Hne2).
+      assert (Hg3 : get_label (local_ctx cx2 v) (NUser l) = Some L).
+      { rewrite local_ctx_get_label. eapply glA_stable; [apply push_ctx_ne|exact E|exact Hg]. }
+      assert (Hinj3 : ctx_inj (local_ctx cx2 v)).
+      { apply ctx_inj_local_ctx. eapply glA_ctx_inj; [apply push_ctx_ne|apply ctx_lt_push; exact Hlt|apply ctx_inj_push; exact Hinj|exact E]. }
+      assert (Hlt3 : ctx_lt (local_ctx cx2 v) n2).
+      { apply ctx_lt_local_ctx. eapply glA_ctx_lt; [apply push_ctx_ne|apply ctx_lt_push; exact Hlt|exact E]. }
+      destruct (IH l b' (local_ctx cx2 v) n2 (pred tl) c0 n' L (local_ctx_ne2 _ _ Hne2) E2 Hnot' ltac:(lia) Hlb Hg3 Hinj3 Hlt3)
+        as (c1 & z & -> & Hc1 & Hz).
+      exists (local_code v ++ c1), (z ++ pop_code (local_ctx cx2 v)).
+      split; [rewrite <- !app_assoc; reflexivity|]. split.
+      * intro Hq. apply in_app_or in Hq as [Hq|Hq]; [eapply local_code_nolab; exact Hq|exact (Hc1 Hq)].
+      * apply noop_app.
+        -- eapply noop_mono; [exact Hz|]. rewrite (local_ctx_top_height _ _ Hne2). cbn in Hth. destruct v; lia.
+        -- apply pop_code_local_ctx; [exact Hne2|exact Htl2|exact Hth].
+    + rewrite (compile_nonlocalA _ _ _ _ _ _ _ Et) in H.
+      destruct (compile_stmt cx n t) as [[c1 n1]|] eqn:E1; [|discriminate]. cbn [obind] in H.
+      destruct (compile_stats cx n1 (pred tl) false [] _) as [[c2 n2]|] eqn:E2; [|discriminate].
+      cbn [obind] in H. inversion H; subst. clear H.
+      assert (RN : n <= n1 /\ ~ In (ILabel L) c1).
+      { destruct (match t with SLabel _ => true | _ => false end) eqn:Elab.
+        - destruct t; try discriminate. cbn [compile_stmt] in E1.
+          destruct (get_label cx (NUser l0)) as [x|] eqn:Eg; [|discriminate]. cbn [obind] in E1. inversion E1; subst.
+          split; [lia|]. intros [Hq|[]]. inversion Hq; subst x.
+          pose proof (Hinj _ _ _ Eg Hg) as Hq2. inversion Hq2; subst l0. apply Hnot. left. reflexivity.
+        - destruct (proj1 compile_labsA t cx n c1 n1 Hne ltac:(intros l0 ->; discriminate) E1) as (A & B & _).
+          split; [exact A|]. intro Hq. specialize (B _ Hq). pose proof (get_label_lt _ _ _ _ Hlt Hg). lia. }
+      destruct RN as [Hn1 Hc1].
+      destruct (IH l b' cx n1 (pred tl) c2 n' L Hne E2 Hnot' ltac:(lia) Hlb Hg Hinj (ctx_lt_mono _ _ _ Hlt Hn1))
+        as (c1' & z & -> & Hc1' & Hz).
+      exists (c1 ++ c1'), z. split; [rewrite <- app_assoc; reflexivity|]. split; [|exact Hz].
+      intro Hq. apply in_app_or in Hq as [Hq|Hq]; [exact (Hc1 Hq)|exact (Hc1' Hq)].
+Qed.
+
+(* the reference semantics on a void tail *)
+Lemma void_run_block : forall b f s ev o s', lblnil b -> run_block f false b s = Done (ev, o, s') ->
+  ev = [] /\ o = ONormal /\ s' = s.
+Proof.
+  induction b as [|r|t b IH] using block_ind; intros f s ev o s' Hl H.
+  - destruct f; [discriminate|]. cbn in H. inversion H; auto.
+  - destruct Hl.
+  - cbn [lblnil] in Hl. destruct t; try contradiction.
+    destruct f; [discriminate|]. cbn [run_block] in H.
+    destruct f; [discriminate|]. cbn [run_stmt bind prepend] in H.
+    destruct (run_block (S f) false b s) as [[[e2 o2] s2]|] eqn:E; [|discriminate].
+    cbn in H. inversion H; subst. eapply IH; eassumption.
+Qed.
+
+Lemma void_run_scope : forall b W f s ev o s', lblnil b -> run_scope f false W b s = Done (ev, o, s') ->
+  ev = [] /\ o = ONormal /\ s' = s.
+Proof.
+  intros b W f s ev o s' Hl H. destruct f; [discriminate|]. cbn [run_scope] in H.
+  destruct (run_block f false b s) as [[[e2 o2] s2]|] eqn:E; [|discriminate]. cbn [bind] in H.
+  destruct (void_run_block _ _ _ _ _ _ Hl E) as (-> & -> & ->). inversion H; auto.
+Qed.
+
+(* ---------------------------------------------------------------- small facts for the block level *)
+Lemma glA_top_mono : forall sh cx n cx1 n1 bo name y, cx <> [] -> get_labels cx n sh = Some (cx1, n1, bo) ->
+  scope_label name (top_labels cx) = Some y -> scope_label name (top_labels cx1) <> None.
+Proof.
+  induction sh as [|x sh IH]; intros cx n cx1 n1 bo name y Hne H Hs; cbn [get_labels] in H.
+  - inversion H; subst. rewrite Hs. discriminate.
+  - destruct x.
+    + unfold declare_unique in H. destruct (get_label cx (NUser l)); [discriminate|].
+      destruct (lname_eqb name (NUser l)) eqn:E.
+      * eapply (IH _ _ _ _ _ name n (add_label_ne _ _ _ Hne) H).
+        rewrite add_label_top by exact Hne. cbn. rewrite E. reflexivity.
+      * eapply (IH _ _ _ _ _ name y (add_label_ne _ _ _ Hne) H).
+        rewrite add_label_top by exact Hne. cbn. rewrite E. exact Hs.
+    + inversion H; subst. rewrite Hs. discriminate.
+    + eapply IH; eassumption.
+Qed.
+
+Lemma jump_target_skip : forall cx name, scope_label name (top_labels cx) = None ->
+  jump_target cx name = jump_target (tl cx) name.
+Proof. intros [|s r] name H; [reflexivity|]. cbn in *. rewrite H. reflexivity. Qed.
+
+Lemma flab_in_shapes : forall sh l, In l (flab sh) -> In (ShLabel l) sh.
+Proof.
+  induction sh as [|x r IH]; intros l H; [destruct H|]. destruct x; cbn in H.
+  - destruct H as [->|H]; [left; reflexivity|right; apply IH; exact H].
+  - destruct H.
+  - right. apply IH. exact H.
+Qed.
+
+Lemma shape_label_stmt : forall b l, In (ShLabel l) (shapes b) -> In (SLabel l) (stmts b).
+Proof.
+  induction b as [|r|t b IH] using block_ind; intros l H; try destruct H.
+  - left. destruct t; try discriminate. inversion H. reflexivity.
+  - right. apply IH. exact H.
+Qed.
+
+Lemma flab_firstn_incl : forall k sh l, In l (flab (firstn k sh)) -> In l (flab sh).
+Proof.
+  induction k; intros [|x r] l H; try (cbn in H; destruct H; fail); try exact H.
+  cbn [firstn flab] in *. destruct x; cbn in *; try exact H; try (apply IHk; exact H).
+  destruct H as [->|H]; [left; reflexivity|right; apply IHk; exact H].
+Qed.
+
+Lemma lead_incl : forall sh x, In x (lead sh) -> In x sh.
+Proof.
+  induction sh as [|y r IH]; intros x H; [destruct H|]. destruct y; try destruct H.
+  - left. exact H.
+  - right. apply IH. exact H.
+Qed.
+
+Lemma find_label_of_in : forall l b, In (SLabel l) (stmts b) -> find_label l b <> None.
+Proof.
+  intros l. induction b as [|r|t b IH] using block_ind; intros H; try destruct H.
+  - subst t. cbn. rewrite Nat.eqb_refl. discriminate.
+  - cbn [find_label]. destruct t; try (apply IH; exact H).
+    destruct (Nat.eqb l l0); [discriminate|apply IH; exact H].
+Qed.
+
+Lemma find_label_none_stmts : forall l b, find_label l b = None -> ~ In (SLabel l) (stmts b).
+Proof. intros l b H Hin. exact (find_label_of_in l b Hin H). Qed.
